@@ -348,7 +348,7 @@ pub fn decode_drive(a: &Args) {
         let kind = kinds[(i % if checked { 3 } else { 6 }) as usize];
         let (src, dst) = (a4(&mut rng), a4(&mut rng));
         let mut b = if checked { checked_packet(&mut rng, kind, src, dst) } else { valid_packet(&mut rng, kind) };
-        let how = if checked { [0, 7, 7, 8, 8, 1][rng.gen_range(0..6)] } else { rng.gen_range(0..7) };
+        let how = if checked { [0, 7, 7, 8, 8, 1, 9, 10][rng.gen_range(0..8)] } else { rng.gen_range(0..7) };
         match how {
             0 => {} // valid
             1 => { let l = rng.gen_range(0..=b.len()); b.truncate(l); } // truncation at every length
@@ -356,6 +356,15 @@ pub fn decode_drive(a: &Args) {
             4 => { b = (0..rng.gen_range(0..64usize)).map(|_| rng.gen()).collect(); } // random bytes
             7 => { if !b.is_empty() { let k = rng.gen_range(0..b.len() * 8); b[k / 8] ^= 1 << (k % 8); } } // single bit corruption
             8 => { if !b.is_empty() { for _ in 0..2 { let k = rng.gen_range(0..b.len() * 8); b[k / 8] ^= 1 << (k % 8); } } } // double bit corruption
+            // the checksum field itself overwritten with one of the two representations of zero (several bits at once)
+            9 | 10 => {
+                let at = match kind { "ipv4" => 10, "udp" => 6, _ => 16 };
+                if b.len() > at + 1 {
+                    let v = if how == 9 { 0x00 } else { 0xff };
+                    b[at] = v;
+                    b[at + 1] = v;
+                }
+            }
             5 => { if b.len() > 30 { let k = 29; b[k] = [0u8, 8, 9, 128, 255][rng.gen_range(0..5)]; } } // DHCP type / others: extreme
             _ => { for x in b.iter_mut().take(8).skip(2) { *x = 0xff; } } // extreme length fields
         }
